@@ -3,6 +3,7 @@
    recursive reference possibly through one alias rule, is the iteration (b1/../bm)(a1/../an)* with
    the recursive reference standing for the left-nested result so far.
    Proved here about the model of the run-time:
+   - termination of the growing loop: at most |input| + 2 rounds, whatever the rule body does (C08_growth_terminates);
    - what the last, non-extending growth attempt did to the error list and to the state store is not
      retained, whatever the rule body did (any wrap, any rule, any state);
    - the full statement "the run-time computes the iteration" is FALSE of the faithful model when the
@@ -11,7 +12,7 @@
    The statement for the remaining shapes is decided by execution against lrparse (see DESIGN.md):
    it is not proved (C08_iteration_partial). *)
 From PV Require Import Lib.Base Lib.Utf8 Syntax.RGrammar Syntax.Code Model.PState Spec.Pos Model.Runtime
-  Spec.Ref Spec.RefParse Spec.LRIter Proofs.LRProofs Proofs.LRRefuted.
+  Spec.Ref Spec.RefParse Spec.LRIter Proofs.ReadProofs Proofs.Inv Proofs.Corollaries Proofs.LRProofs Proofs.LRRefuted.
 
 Theorem C08_last_attempt_not_retained :
   forall (c : cfg) (wrap : expr -> M (val * bool)) n r sm depth last lastErrs s v b s2,
@@ -24,6 +25,18 @@ Theorem C08_last_attempt_not_retained :
       gs s3 = gs s2 /\ trace s3 = trace s2.
 Proof. exact last_attempt_not_retained. Qed.
 Print Assumptions C08_last_attempt_not_retained.
+
+(* "parsing terminates": the growing loop of a leader needs at most |input| + 2 rounds, whatever the rule body does -
+   after the first round a further round is started only if the last one ended strictly farther, and ends stay within
+   the input (invariant of the run-time model).  So when the body of the rule never runs out of fuel, the loop does not
+   either, for every state satisfying the invariant, every grammar, with and without Memoize. *)
+Theorem C08_growth_terminates : forall (c : cfg) fuel n r s,
+  I c s ->
+  (forall s', parseRule (parseExprWrap c fuel) r s' <> OutOfFuel) ->
+  length (cData c) + 2 <= n ->
+  parseRuleRecursiveLeader c (parseExprWrap c fuel) n r s <> OutOfFuel.
+Proof. exact growth_terminates. Qed.
+Print Assumptions C08_growth_terminates.
 
 (* Start <- Sum ; Sum <- Lhs "+" P / P ; Lhs <- Sum ; P <- "1"  on "1+1" *)
 Theorem C08_iteration_refuted_when_entered_through_non_leader :
